@@ -865,6 +865,28 @@ pub fn gen_program(r: &mut Rng, o: &ProgOpts) -> Program {
             units.push(Unit::Rows(gen_rows_unit(r, o, last, implicit)));
         }
     }
+    // sometimes two consecutive resultsets share a schema: the second one's columns are a
+    // prefix of the first one's, or the other way round (same values, fewer columns)
+    if r.chance(1, 6) {
+        for i in 0..units.len().saturating_sub(1) {
+            let (a, b) = units.split_at_mut(i + 1);
+            if let (Unit::Rows(x), Unit::Rows(y)) = (&mut a[i], &mut b[0]) {
+                if x.cols.len() >= 2 && x.contra.is_none() && y.contra.is_none() && !x.rows.is_empty() {
+                    let k = 1 + r.usize_below(x.cols.len() - 1);
+                    let (long, short) = if r.coin() { (x, y) } else { (y, x) };
+                    // make `long` hold the full schema and `short` its first k columns
+                    if long.cols.len() < 2 {
+                        continue;
+                    }
+                    let k = k.min(long.cols.len() - 1).max(1);
+                    short.cols = long.cols[..k].to_vec();
+                    let keep = short.rows.len().max(1).min(long.rows.len().max(1));
+                    short.rows = long.rows.iter().take(keep).map(|rw| rw[..k.min(rw.len())].to_vec()).collect();
+                    break;
+                }
+            }
+        }
+    }
     // an Implicit end needs a terminal close on a trailing Rows unit; FinishOne there would
     // leave the writer to be dropped, which is the DropWriter case
     let mut end = end;
@@ -882,6 +904,7 @@ pub fn gen_program(r: &mut Rng, o: &ProgOpts) -> Program {
         probe_cells: false,
         pull_params: None,
         pull_skip: 0,
+        mixed_rows: if r.chance(1, 8) { 1 + r.below(3) as u8 } else { 0 },
     }
 }
 
@@ -896,6 +919,7 @@ pub fn simple_ok_program() -> Program {
         probe_cells: false,
         pull_params: None,
         pull_skip: 0,
+        mixed_rows: 0,
     }
 }
 
